@@ -99,3 +99,33 @@ Example C09_example : exists s, run init ex_labels = Some s /\
   rets s = [(0%nat, 1%nat, 40, RetVal KObj 8); (1%nat, 1%nat, 44, RetVal KVecBare 7)].
 Proof. eexists. split; [vm_compute; reflexivity|reflexivity]. Qed.
 Print Assumptions C09_example.
+
+(* ---- the key under which the receive loop looks up a message's decoder hints (mtproto.go reqMsgIDOf) ----
+   model and proofs: TL/ReqId.v.  The hints a caller registered sit under the id of ITS request, so an answer finds
+   them exactly when this function returns that id: for a result, plain or packed as a whole, it is the req_msg_id the
+   message carries, whatever follows it; everything that is not a result has no hints (0 is no request's id). *)
+From Coq Require Import NArith.
+From MTV Require Import Base.Bytes TL.Types TL.Typing TL.ReqId.
+Open Scope N_scope.
+
+Theorem C09_hint_key_of_result : forall inflate id result, id < two64 ->
+  req_msg_id_of inflate (le32 crc_rpc_result ++ le64 id ++ result) = id.
+Proof. exact reqid_of_result. Qed.
+Print Assumptions C09_hint_key_of_result.
+
+Theorem C09_hint_key_of_packed_result : forall inflate id result payload packed tail, id < two64 ->
+  inflate payload = Some (le32 crc_rpc_result ++ le64 id ++ result) -> put_bytes payload = Some packed ->
+  req_msg_id_of inflate (le32 crc_gzip ++ packed ++ tail) = id.
+Proof. exact reqid_of_packed_result. Qed.
+Print Assumptions C09_hint_key_of_packed_result.
+
+Theorem C09_hint_key_of_other : forall inflate c rest, c < two32 -> c <> crc_rpc_result -> c <> crc_gzip ->
+  req_msg_id_of inflate (le32 c ++ rest) = 0.
+Proof. exact reqid_of_other. Qed.
+Print Assumptions C09_hint_key_of_other.
+
+Theorem C09_hint_key_of_packed_other : forall inflate c rest payload packed tail, c < two32 -> c <> crc_rpc_result ->
+  inflate payload = Some (le32 c ++ rest) -> put_bytes payload = Some packed ->
+  req_msg_id_of inflate (le32 crc_gzip ++ packed ++ tail) = 0.
+Proof. exact reqid_of_packed_other. Qed.
+Print Assumptions C09_hint_key_of_packed_other.
